@@ -9,7 +9,7 @@
    expectation (spec) and the wire glue. *)
 From Coq Require Import List NArith ZArith Bool Arith.
 Import ListNotations.
-Require Import Verif.Lib.Wire Verif.Lib.C15Prog Verif.Gen.Facts_C15.
+Require Import Verif.Lib.Wire Verif.Lib.C15Prog Verif.Lib.C15Init Verif.Gen.Facts_C15.
 
 Definition view := N.
 (* a lookup: view classifier (0 = IViewClassifier, 1 = IExceptionViewClassifier), request iface,
@@ -375,6 +375,107 @@ Section Sys.
     fold_left (fun s o => run_op fuel o s) ops s.
 End Sys.
 
+(* ---- re-initialisation of a live registry (Registry.__init__ run again, as pyramid.testing.tearDown
+   does with the registry it pops) ----
+   The program [init_prog] is translated from Registry.__init__.  A re-initialisation is ONE step of a
+   history and is only modelled in idle states (no lookup or registration in flight): the property's
+   quantifier interleaves lookups and registrations, not re-initialisations. *)
+Definition reinit_step (st : state) (i : init_instr) : state :=
+  match i with
+  | INewLock => set_lock st None
+  | IClear Swap => swap_cache st
+  | IClear InPlace => set_heap st (upd (heap st) (cur st) [])
+  | IResetAdapters => set_R st []
+  end.
+Definition reinit (IP : list init_instr) (st : state) : state := fold_left reinit_step IP st.
+
+Definition is_clear (i : init_instr) : bool := match i with IClear _ => true | _ => false end.
+Definition is_reset (i : init_instr) : bool := match i with IResetAdapters => true | _ => false end.
+(* what the theorems need of the translated program: it clears the lookup cache and it drops the
+   registrations, in whichever order *)
+Definition init_prog_ok (IP : list init_instr) : bool := existsb is_clear IP && existsb is_reset IP.
+
+Fixpoint idle_upto (n : nat) (st : state) : bool :=
+  match n with
+  | 0 => true
+  | S m => match threads st m with Some t => is_nil (cont t) | None => true end && idle_upto m st
+  end.
+Definition idleb (st : state) : bool := idle_upto (ntid st) st.
+
+(* a history: label traces (any interleaving of lookups and registrations) separated by re-initialisations *)
+Inductive hstep := HTrace (tr : list label) | HReinit.
+
+Section Hist.
+  Variable sro : N -> list N.
+  Variable km : key_mode.
+  Variable LP RP : list instr.
+  Variable IP : list init_instr.
+
+  Definition do_hstep (st : state) (h : hstep) : state :=
+    match h with HTrace tr => exec sro km LP RP tr st | HReinit => reinit IP st end.
+  Definition hexec (hs : list hstep) (st : state) : state := fold_left do_hstep hs st.
+
+  (* every re-initialisation of the history happens in an idle state *)
+  Fixpoint reinit_idle (hs : list hstep) (st : state) : bool :=
+    match hs with
+    | [] => true
+    | h :: r => (match h with HReinit => idleb st | HTrace _ => true end) && reinit_idle r (do_hstep st h)
+    end.
+
+  (* the declarative expectation along a history: a re-initialisation constrains nothing new and leaves
+     the expectations of the (finished) lookups alone *)
+  Fixpoint hexpect (st : state) (hs : list hstep) (ex : tid -> option (list view)) : tid -> option (list view) :=
+    match hs with
+    | [] => ex
+    | h :: r => hexpect (do_hstep st h) r (match h with HTrace tr => expect sro km LP RP st tr ex | HReinit => ex end)
+    end.
+
+  (* what the wire glue runs: nested schedules and re-initialisations at top level *)
+  Inductive top := TOp (o : op) | TReinit.
+  (* state, reversed history, reversed spawn ids *)
+  Definition tst := (state * list hstep * list N)%type.
+  Definition run_top (fuel : nat) (a : tst) (t : top) : tst :=
+    let '(st, hs, ids) := a in
+    match t with
+    | TOp o => let '(st', rtr, ids') := run_op sro km LP RP fuel o (st, [], ids) in (st', HTrace (rev rtr) :: hs, ids')
+    | TReinit => (reinit IP st, HReinit :: hs, ids)
+    end.
+  Definition run_tops (fuel : nat) (ts : list top) (a : tst) : tst := fold_left (run_top fuel) ts a.
+End Hist.
+
+(* the claim for histories with re-initialisations: a lookup that starts when no registration is in
+   progress ... returns lookup_all of the registrations in force -- none, right after a re-initialisation *)
+Definition hist_fresh_claim (km : key_mode) (LP RP : list instr) (IP : list init_instr) : Prop :=
+  forall sro R0 hs k tr2,
+    reinit_idle sro km LP RP IP hs (init R0) = true ->
+    let st1 := hexec sro km LP RP IP hs (init R0) in
+    let st2 := exec sro km LP RP (SpawnLookup k :: tr2) st1 in
+    quietb st1 = true ->
+    reg_free sro km LP RP st1 (SpawnLookup k :: tr2) = true ->
+    exists t, threads st2 (ntid st1) = Some t /\ tkind t = KLookup /\ tkey t = k /\
+              (cont t = [] -> tres t = Some (lookup_all sro (R st1) k)).
+
+(* ---- which request type a dispatch looks views up with (Router.handle_request) ----
+   The only state of a REQUEST OBJECT the lookup key depends on is its attribute request_iface: the class
+   attribute of pyramid.request.Request (IRequest) until handle_request stores into the instance.  The two
+   stores of handle_request are regenerated facts: the unconditional reset to IRequest at the top
+   ([router_resets_iface]) and the assignment of the matched route's request interface
+   ([router_sets_route_iface]).  [prev]: the instance attribute left by an earlier dispatch of the same
+   request object (None = never dispatched); [m]: the request interface of the route that matches now. *)
+Definition i_request : N := 1.
+Definition dispatch_iface (reset setroute : bool) (prev : option N) (m : option N) : N :=
+  let a := if reset then Some i_request else prev in
+  let b := match m with Some r => if setroute then Some r else a | None => a end in
+  match b with Some i => i | None => i_request end.
+(* the attribute after the dispatches [ms] of one request object, oldest first *)
+Definition dispatch_chain (reset setroute : bool) (ms : list (option N)) : option N :=
+  fold_left (fun prev m => Some (dispatch_iface reset setroute prev m)) ms None.
+(* the request type of the lookup made by the LAST dispatch of the chain *)
+Definition dispatch_last (reset setroute : bool) (ms : list (option N)) : N :=
+  match dispatch_chain reset setroute ms with Some i => i | None => i_request end.
+(* what a brand-new request object dispatched to the same URL is looked up with *)
+Definition fresh_iface (m : option N) : N := match m with Some r => r | None => i_request end.
+
 (* the programs of the current tree, as translated by the facts extractor *)
 Definition std_wb (tg : target) : list instr := [Lock; Write tg; Unlock].
 Definition std_lookup (tg : target) (guard : bool) : list instr :=
@@ -430,8 +531,22 @@ Fixpoint first_answer (tbl : answers) (vs : list view) : option view :=
   | [] => None
   | v :: r => match answer_of tbl v with Some a => Some a | None => first_answer tbl r end
   end.
+(* the reference model of _call_view's control flow: the first candidate that does not raise PredicateMismatch
+   answers; when every candidate raised it, the last PredicateMismatch is re-raised; no candidate: None *)
+Fixpoint model_call_view (call : N -> cand_result) (vs : list N) (seen : bool) : cv_outcome :=
+  match vs with
+  | [] => if seen then CVRaiseMismatch else CVNone
+  | v :: r => match call v with CAnswer a => CVResponse a | CMismatch => model_call_view call r true end
+  end.
+Definition call_of (tbl : answers) (v : view) : cand_result :=
+  match answer_of tbl v with Some a => CAnswer a | None => CMismatch end.
+(* who answered: nobody when _call_view returned None or raised PredicateMismatch *)
+Definition outcome_view (o : cv_outcome) : option view :=
+  match o with CVResponse a => Some a | _ => None end.
+(* the model answers requests with the program GENERATED from _call_view on this run *)
 Definition request_answer (tbl : answers) (res : option (list view)) : option (option view) :=
-  if call_view_reads_only && multiview_stateless then option_map (first_answer tbl) res else None.
+  if call_view_reads_only && multiview_stateless
+  then option_map (fun vs => outcome_view (gen_call_view (call_of tbl) vs)) res else None.
 
 (* ---- wire glue ---- *)
 Definition get_slot (v : val) : option slot :=
@@ -541,6 +656,24 @@ Definition put_answer (o : option (option (option view))) : val :=
   | Some (Some a) => vopt vN a
   end.
 
+(* top-level operations of a case: a nested schedule operation (get_op), a re-initialisation of the
+   registry [2; id], or a request dispatched by the Router [3; id; [classifier; context iface; name]; ms]
+   where ms lists, oldest first, which route (request interface id, or nothing) matched in each dispatch
+   of the SAME request object up to and including this one: the request type of the lookup is computed
+   here, from the regenerated facts about Router.handle_request *)
+Definition get_top (v : val) : option top :=
+  match v with
+  | VL [VI 2%Z; _] => Some TReinit
+  | VL [VI 3%Z; id; VL [cl; cx; nm]; ms] =>
+      olet id := get_N id in olet cl := get_N cl in olet cx := get_N cx in olet nm := get_N nm in
+      olet ms := get_list_of (get_opt get_N) ms in
+      Some (TOp (OLookup id (cl, dispatch_last router_resets_iface router_sets_route_iface ms, cx, nm) []))
+  | _ => olet o := get_op 12 v in Some (TOp o)
+  end.
+Definition top_keys (t : top) : list key := match t with TOp o => op_keys 12 o | TReinit => [] end.
+Definition hlen (hs : list hstep) : nat :=
+  fold_left (fun n h => match h with HTrace tr => n + length tr | HReinit => n end) hs 0.
+
 (* case = [sro table; initial registrations; operations; answer tables of the request operations; foreign registry?]
    answer = [threads; spawn ids; final cache; expectations; final quiet; final table; trace length;
              model answers; expected answers] *)
@@ -554,20 +687,20 @@ Definition run_C15 (v : val) : val :=
         (* a registry that is not a pyramid Registry clears its cache with the function _fix_registry installed *)
         let rprog := if foreign then register_prog_fallback else register_prog in
         olet r0 := get_list_of get_update r0 in
-        olet ops := map_opt (get_op 12) ops in
+        olet ops := map_opt get_top ops in
         let sro := assoc_sro tbl in
         let st0 := init (rapply r0 []) in
-        let '(st, rtr, rids) := run_ops sro cache_key_mode lookup_prog rprog 12 ops (st0, [], []) in
-        let tr := rev rtr in
-        let ex := expect sro cache_key_mode lookup_prog rprog st0 tr (fun _ => None) in
-        let keys := dkeys (map (fun k => (k, [])) (flat_map (op_keys 12) ops)) [] in
+        let '(st, rhs, rids) := run_tops sro cache_key_mode lookup_prog rprog init_prog 12 ops (st0, [], []) in
+        let hs := rev rhs in
+        let ex := hexpect sro cache_key_mode lookup_prog rprog init_prog st0 hs (fun _ => None) in
+        let keys := dkeys (map (fun k => (k, [])) (flat_map top_keys ops)) [] in
         Some (VL [VL (map (fun i => put_thread (threads st i)) (range (ntid st)));
                   VL (map vN (rev rids));
                   put_dict (heap st (cur st));
                   VL (map (fun i => vopt vviews (ex i)) (range (ntid st)));
                   vbool (quietb st);
                   VL (map (fun k => VL [vkey k; vviews (lookup_all sro (R st) k)]) keys);
-                  vnat (length tr);
+                  vnat (hlen hs);
                   VL (map (fun i => put_answer
                              (match assoc_answers ans (nth i (rev rids) 0%N), threads st i with
                               | Some tb, Some t => Some (request_answer tb (tres t))
@@ -580,3 +713,31 @@ Definition run_C15 (v : val) : val :=
                               end)) (range (ntid st)))])
     | _ => None
     end).
+
+(* ---- further claims as statements about a pair of programs (used for the lock-free bodies) ---- *)
+Definition no_stale_claim (km : key_mode) (LP RP : list instr) : Prop :=
+  forall sro R0 tr0 i ti trm k tr2,
+    let st0 := exec sro km LP RP tr0 (init R0) in
+    let st1 := exec sro km LP RP (Step i :: trm) st0 in
+    let st2 := exec sro km LP RP (SpawnLookup k :: tr2) st1 in
+    threads st0 i = Some ti -> tkind ti = KRegister -> cont ti = RP ->
+    reg_free sro km LP RP (do_label sro km LP RP st0 (Step i)) trm = true ->
+    quietb st1 = true ->
+    reg_free sro km LP RP st1 (SpawnLookup k :: tr2) = true ->
+    exists t, threads st2 (ntid st1) = Some t /\ tkind t = KLookup /\ tkey t = k /\
+              (cont t = [] -> tres t = Some (lookup_all sro (rapply (tups ti) (R st0)) k)).
+
+Definition concurrent_claim (km : key_mode) (LP RP : list instr) : Prop :=
+  forall sro R0 tr j t,
+    reg_free sro km LP RP (init R0) tr = true ->
+    threads (exec sro km LP RP tr (init R0)) j = Some t -> tkind t = KLookup -> cont t = [] ->
+    tres t = Some (lookup_all sro R0 (tkey t)) /\
+    forall n t0,
+      threads (exec sro km LP RP (SpawnLookup (tkey t) :: repeat (Step 0) n) (init R0)) 0 = Some t0 ->
+      cont t0 = [] -> tres t = tres t0.
+
+Definition expect_claim (km : key_mode) (LP RP : list instr) : Prop :=
+  forall sro R0 tr j vs t,
+    expect sro km LP RP (init R0) tr (fun _ => None) j = Some vs ->
+    threads (exec sro km LP RP tr (init R0)) j = Some t -> cont t = [] ->
+    tkind t = KLookup /\ tres t = Some vs.
